@@ -22,16 +22,20 @@
 EXTENDS LockContract
 
 CONSTANTS Readers, Writers, Rounds, Grace, MaxT, AllowShutdown, AllowParentCancel, GraceFromAdmission,
+          DeleteOnEveryRelease, \* TRUE: defect variant - a reader's release func removes the registry entry under its id on
+                                \* EVERY call, not only the first: after a writer restarted the ids it removes a later reader's
           ErrButAdmitted   \* TRUE: defect variant - RLock's second select also returns on the caller's context, although
                            \* the serving goroutine may admit (register) the reader all the same
 G == Readers \cup Writers
+Ids == 0..(Cardinality(Readers) * Rounds)     \* rcancels keys: rcancelx restarts at 0 with every writer
 
-VARIABLES now, closed, chq, srv, sg, lslot, reg, grace, cause, admittedAt, resp, pcancelled, told,
+VARIABLES now, closed, chq, srv, sg, lslot, reg, ents, rid, nextId, grace, cause, admittedAt, resp, pcancelled, told,
           sdheld, viaSd, pc, left, c
-vars == <<now, closed, chq, srv, sg, lslot, reg, grace, cause, admittedAt, resp, pcancelled, told, sdheld, viaSd, pc, left, c>>
+vars == <<now, closed, chq, srv, sg, lslot, reg, ents, rid, nextId, grace, cause, admittedAt, resp, pcancelled, told, sdheld, viaSd, pc, left, c>>
 
 Ev(n, g) == [ev |-> n, g |-> g]
 Init == /\ now = 0 /\ closed = FALSE /\ chq = 0 /\ srv = "loop" /\ sg = 0 /\ lslot = 0 /\ reg = {}
+        /\ ents = [i \in Ids |-> 0] /\ rid = [r \in Readers |-> 0] /\ nextId = 0
         /\ grace = [r \in Readers |-> -1] /\ cause = [r \in Readers |-> "none"] /\ admittedAt = [r \in Readers |-> 0]
         /\ resp = [g \in G |-> "none"] /\ pcancelled = [r \in Readers |-> FALSE] /\ told = [r \in Readers |-> FALSE]
         /\ sdheld = 0 /\ viaSd = [g \in Writers |-> FALSE]
@@ -43,8 +47,13 @@ Tell(cc, r, cs) == IF pc[r] = "in" /\ ~told[r] THEN CNext(cc, [ev |-> "told_to_s
 TellFlag(r) == pc[r] = "in" /\ ~told[r]
 
 (* rcancel of reader r (outercancel.go:117-127); no-op when done *)
+(* the registry: ents = rcancels (id -> the reader whose grace-cancel is stored there, 0 = no entry), rid[r] = the id  *)
+(* reader r was registered under, nextId = rcancelx; reg = the readers counted in wg (registered, release not yet run) *)
+Registered == {ents[i] : i \in Ids} \ {0}
 RCancelVars(r) == /\ reg' = reg \ {r}
                   /\ cause' = [cause EXCEPT ![r] = IF r \in reg /\ @ = "none" THEN "configured" ELSE @]
+                  /\ ents' = IF r \in reg \/ DeleteOnEveryRelease THEN [ents EXCEPT ![rid[r]] = 0] ELSE ents
+                  /\ UNCHANGED <<rid, nextId>>
 
 Call(g) == /\ pc[g] = "idle" /\ left[g] > 0 /\ pc' = [pc EXCEPT ![g] = "call"]
            /\ c' = CNext(c, [ev |-> "acq_call", g |-> g, key |-> 0, mode |-> IF g \in Writers THEN "w" ELSE "r", pre |-> FALSE, now |-> now])
@@ -52,31 +61,31 @@ Call(g) == /\ pc[g] = "idle" /\ left[g] > 0 /\ pc' = [pc EXCEPT ![g] = "call"]
                                     /\ cause' = [cause EXCEPT ![g] = "none"] /\ UNCHANGED viaSd
                                ELSE viaSd' = [viaSd EXCEPT ![g] = FALSE] /\ UNCHANGED <<pcancelled, told, cause>>
            /\ resp' = [resp EXCEPT ![g] = "none"]
-           /\ UNCHANGED <<now, closed, chq, srv, sg, lslot, reg, grace, admittedAt, sdheld, left>>
+           /\ UNCHANGED <<now, closed, chq, srv, sg, lslot, reg, ents, rid, nextId, grace, admittedAt, sdheld, left>>
 
 (* RLock, outercancel.go:171-191 *)
 RSelect1(g) == /\ g \in Readers /\ pc[g] = "call"
                /\ \/ (closed \/ pcancelled[g]) /\ pc' = [pc EXCEPT ![g] = "reterr"] /\ UNCHANGED chq
                   \/ chq = 0 /\ chq' = g /\ pc' = [pc EXCEPT ![g] = "wait"]
-               /\ UNCHANGED <<now, closed, srv, sg, lslot, reg, grace, cause, admittedAt, resp, pcancelled, told, sdheld, viaSd, left, c>>
+               /\ UNCHANGED <<now, closed, srv, sg, lslot, reg, ents, rid, nextId, grace, cause, admittedAt, resp, pcancelled, told, sdheld, viaSd, left, c>>
 RSelect2(g) == /\ g \in Readers /\ pc[g] = "wait"
                /\ \/ closed /\ pc' = [pc EXCEPT ![g] = "reterr"]
                   \/ resp[g] = "ok" /\ pc' = [pc EXCEPT ![g] = "ret"]
                   \/ resp[g] = "err" /\ pc' = [pc EXCEPT ![g] = "reterr"]
                   \/ ErrButAdmitted /\ pcancelled[g] /\ pc' = [pc EXCEPT ![g] = "reterr"]
-               /\ UNCHANGED <<now, closed, chq, srv, sg, lslot, reg, grace, cause, admittedAt, resp, pcancelled, told, sdheld, viaSd, left, c>>
+               /\ UNCHANGED <<now, closed, chq, srv, sg, lslot, reg, ents, rid, nextId, grace, cause, admittedAt, resp, pcancelled, told, sdheld, viaSd, left, c>>
 (* Lock, outercancel.go:148-169 *)
 WSelect1(g) == /\ g \in Writers /\ pc[g] = "call"
                /\ \/ closed /\ pc' = [pc EXCEPT ![g] = "sd"] /\ UNCHANGED chq
                   \/ chq = 0 /\ chq' = g /\ pc' = [pc EXCEPT ![g] = "wait"]
-               /\ UNCHANGED <<now, closed, srv, sg, lslot, reg, grace, cause, admittedAt, resp, pcancelled, told, sdheld, viaSd, left, c>>
+               /\ UNCHANGED <<now, closed, srv, sg, lslot, reg, ents, rid, nextId, grace, cause, admittedAt, resp, pcancelled, told, sdheld, viaSd, left, c>>
 WSelect2(g) == /\ g \in Writers /\ pc[g] = "wait"
                /\ \/ closed /\ pc' = [pc EXCEPT ![g] = "sd"]
                   \/ resp[g] = "ok" /\ pc' = [pc EXCEPT ![g] = "ret"]
-               /\ UNCHANGED <<now, closed, chq, srv, sg, lslot, reg, grace, cause, admittedAt, resp, pcancelled, told, sdheld, viaSd, left, c>>
+               /\ UNCHANGED <<now, closed, chq, srv, sg, lslot, reg, ents, rid, nextId, grace, cause, admittedAt, resp, pcancelled, told, sdheld, viaSd, left, c>>
 WShutdownLock(g) == /\ g \in Writers /\ pc[g] = "sd" /\ sdheld = 0 /\ sdheld' = g /\ viaSd' = [viaSd EXCEPT ![g] = TRUE]
                     /\ pc' = [pc EXCEPT ![g] = "ret"]
-                    /\ UNCHANGED <<now, closed, chq, srv, sg, lslot, reg, grace, cause, admittedAt, resp, pcancelled, told, left, c>>
+                    /\ UNCHANGED <<now, closed, chq, srv, sg, lslot, reg, ents, rid, nextId, grace, cause, admittedAt, resp, pcancelled, told, left, c>>
 
 Ret(g) == /\ pc[g] = "ret" /\ pc' = [pc EXCEPT ![g] = "in"]
           /\ LET c1 == CNext(c, [ev |-> "acq_ret", g |-> g, ok |-> TRUE, now |-> now])
@@ -84,42 +93,47 @@ Ret(g) == /\ pc[g] = "ret" /\ pc' = [pc EXCEPT ![g] = "in"]
                  c2 == IF g \in Readers /\ cause[g] # "none" THEN CNext(c1, [ev |-> "told_to_stop", g |-> g, cause |-> cause[g], now |-> now]) ELSE c1
              IN c' = CNext(c2, Ev("enter", g))
           /\ told' = IF g \in Readers /\ cause[g] # "none" THEN [told EXCEPT ![g] = TRUE] ELSE told
-          /\ UNCHANGED <<now, closed, chq, srv, sg, lslot, reg, grace, cause, admittedAt, resp, pcancelled, sdheld, viaSd, left>>
+          /\ UNCHANGED <<now, closed, chq, srv, sg, lslot, reg, ents, rid, nextId, grace, cause, admittedAt, resp, pcancelled, sdheld, viaSd, left>>
 RetErr(g) == /\ pc[g] = "reterr" /\ pc' = [pc EXCEPT ![g] = "idle"] /\ left' = [left EXCEPT ![g] = @ - 1]
              /\ c' = CNext(c, [ev |-> "acq_ret", g |-> g, ok |-> FALSE, now |-> now])
-             /\ UNCHANGED <<now, closed, chq, srv, sg, lslot, reg, grace, cause, admittedAt, resp, pcancelled, told, sdheld, viaSd>>
+             /\ UNCHANGED <<now, closed, chq, srv, sg, lslot, reg, ents, rid, nextId, grace, cause, admittedAt, resp, pcancelled, told, sdheld, viaSd>>
 Exit(g) == /\ pc[g] = "in" /\ pc' = [pc EXCEPT ![g] = "unl"]
            /\ c' = CNext2(c, Ev("exit", g), [ev |-> "rel_call", g |-> g, how |-> IF g \in Writers THEN "unlock" ELSE "runlock"])
-           /\ UNCHANGED <<now, closed, chq, srv, sg, lslot, reg, grace, cause, admittedAt, resp, pcancelled, told, sdheld, viaSd, left>>
+           /\ UNCHANGED <<now, closed, chq, srv, sg, lslot, reg, ents, rid, nextId, grace, cause, admittedAt, resp, pcancelled, told, sdheld, viaSd, left>>
 RRelease(g) == /\ g \in Readers /\ pc[g] = "unl" /\ RCancelVars(g)
                /\ pc' = [pc EXCEPT ![g] = "idle"] /\ left' = [left EXCEPT ![g] = @ - 1] /\ c' = CNext(c, Ev("rel_ret", g))
                /\ UNCHANGED <<now, closed, chq, srv, sg, lslot, grace, admittedAt, resp, pcancelled, told, sdheld, viaSd>>
+(* the release func called once more after the release (a deferred call after an explicit one): a no-op *)
+RReleaseAgain(g) == /\ g \in Readers /\ pc[g] = "idle" /\ left[g] < Rounds /\ resp[g] = "ok" /\ RCancelVars(g)
+                    /\ UNCHANGED <<now, closed, chq, srv, sg, lslot, grace, admittedAt, resp, pcancelled, told, sdheld, viaSd, pc, left, c>>
 WRelease(g) == /\ g \in Writers /\ pc[g] = "unl"
                /\ IF viaSd[g] THEN sdheld' = 0 /\ UNCHANGED lslot ELSE lslot = 1 /\ lslot' = 0 /\ UNCHANGED sdheld
                /\ pc' = [pc EXCEPT ![g] = "idle"] /\ left' = [left EXCEPT ![g] = @ - 1] /\ c' = CNext(c, Ev("rel_ret", g))
-               /\ UNCHANGED <<now, closed, chq, srv, sg, reg, grace, cause, admittedAt, resp, pcancelled, told, viaSd>>
+               /\ UNCHANGED <<now, closed, chq, srv, sg, reg, ents, rid, nextId, grace, cause, admittedAt, resp, pcancelled, told, viaSd>>
 
 (* the server, outercancel.go:67-146 *)
 SrvRecv == /\ srv = "loop" /\ chq # 0 /\ sg' = chq /\ chq' = 0 /\ srv' = "slot"
-           /\ UNCHANGED <<now, closed, lslot, reg, grace, cause, admittedAt, resp, pcancelled, told, sdheld, viaSd, pc, left, c>>
+           /\ UNCHANGED <<now, closed, lslot, reg, ents, rid, nextId, grace, cause, admittedAt, resp, pcancelled, told, sdheld, viaSd, pc, left, c>>
 SrvReaderGone == /\ srv = "slot" /\ sg \in Readers /\ pcancelled[sg]           \* case <-h.rctx.Done()
                  /\ resp' = [resp EXCEPT ![sg] = "err"] /\ srv' = "loop"
-                 /\ UNCHANGED <<now, closed, chq, sg, lslot, reg, grace, cause, admittedAt, pcancelled, told, sdheld, viaSd, pc, left, c>>
+                 /\ UNCHANGED <<now, closed, chq, sg, lslot, reg, ents, rid, nextId, grace, cause, admittedAt, pcancelled, told, sdheld, viaSd, pc, left, c>>
 SrvAdmitReader == /\ srv = "slot" /\ sg \in Readers /\ lslot = 0            \* slot taken, reader registered, answered, slot freed
                   /\ reg' = reg \cup {sg} /\ admittedAt' = [admittedAt EXCEPT ![sg] = now]
+                  /\ ents' = [ents EXCEPT ![nextId] = sg] /\ rid' = [rid EXCEPT ![sg] = nextId] /\ nextId' = nextId + 1
                   /\ cause' = [cause EXCEPT ![sg] = IF pcancelled[sg] THEN "parent" ELSE "none"]
                   /\ grace' = [grace EXCEPT ![sg] = -1]
                   /\ resp' = [resp EXCEPT ![sg] = "ok"] /\ srv' = "loop"
                   /\ UNCHANGED <<now, closed, chq, sg, lslot, pcancelled, told, sdheld, viaSd, pc, left, c>>
 SrvWriterSlot == /\ srv = "slot" /\ sg \in Writers /\ lslot = 0 /\ lslot' = 1
-                 /\ grace' = [r \in Readers |-> IF r \in reg THEN (IF GraceFromAdmission THEN admittedAt[r] + Grace ELSE now + Grace) ELSE grace[r]]
+                 /\ grace' = [r \in Readers |-> IF r \in Registered THEN (IF GraceFromAdmission THEN admittedAt[r] + Grace ELSE now + Grace) ELSE grace[r]]
+                 /\ nextId' = 0 /\ UNCHANGED <<ents, rid>>
                  /\ srv' = "wwait"
                  /\ UNCHANGED <<now, closed, chq, sg, reg, cause, admittedAt, resp, pcancelled, told, sdheld, viaSd, pc, left, c>>
 SrvWriterGrant == /\ srv = "wwait" /\ reg = {} /\ resp' = [resp EXCEPT ![sg] = "ok"] /\ srv' = "loop"
-                  /\ UNCHANGED <<now, closed, chq, sg, lslot, reg, grace, cause, admittedAt, pcancelled, told, sdheld, viaSd, pc, left, c>>
+                  /\ UNCHANGED <<now, closed, chq, sg, lslot, reg, ents, rid, nextId, grace, cause, admittedAt, pcancelled, told, sdheld, viaSd, pc, left, c>>
 SrvExit == /\ srv = "loop" /\ closed /\ srv' = "exited"
-           /\ grace' = [r \in Readers |-> IF r \in reg /\ grace[r] = -1 THEN now ELSE grace[r]]     \* deferred: go cancel() for every rcancels entry
-           /\ UNCHANGED <<now, closed, chq, sg, lslot, reg, cause, admittedAt, resp, pcancelled, told, sdheld, viaSd, pc, left, c>>
+           /\ grace' = [r \in Readers |-> IF r \in Registered /\ grace[r] = -1 THEN now ELSE grace[r]]     \* deferred: go cancel() for every rcancels entry
+           /\ UNCHANGED <<now, closed, chq, sg, lslot, reg, ents, rid, nextId, cause, admittedAt, resp, pcancelled, told, sdheld, viaSd, pc, left, c>>
 (* a launched rcancelGrace goroutine: timer | closeCh | doneCh, then rcancel *)
 GraceFire(r) == /\ grace[r] >= 0 /\ (now >= grace[r] \/ closed \/ r \notin reg)
                 /\ RCancelVars(r) /\ grace' = [grace EXCEPT ![r] = -1]
@@ -135,9 +149,9 @@ ParentCancel(r) == /\ AllowParentCancel /\ pc[r] \in {"call", "wait", "ret", "in
                       IN /\ cause' = [cause EXCEPT ![r] = IF first THEN "parent" ELSE @]
                          /\ c' = IF first THEN Tell(CNext(c, Ev("cancel", r)), r, "parent") ELSE CNext(c, Ev("cancel", r))
                          /\ told' = IF first /\ TellFlag(r) THEN [told EXCEPT ![r] = TRUE] ELSE told
-                   /\ UNCHANGED <<now, closed, chq, srv, sg, lslot, reg, grace, admittedAt, resp, sdheld, viaSd, pc, left>>
+                   /\ UNCHANGED <<now, closed, chq, srv, sg, lslot, reg, ents, rid, nextId, grace, admittedAt, resp, sdheld, viaSd, pc, left>>
 Shutdown == /\ AllowShutdown /\ ~closed /\ closed' = TRUE /\ c' = CNext(c, [ev |-> "shutdown"])
-            /\ UNCHANGED <<now, chq, srv, sg, lslot, reg, grace, cause, admittedAt, resp, pcancelled, told, sdheld, viaSd, pc, left>>
+            /\ UNCHANGED <<now, chq, srv, sg, lslot, reg, ents, rid, nextId, grace, cause, admittedAt, resp, pcancelled, told, sdheld, viaSd, pc, left>>
 (* Observation discipline of the harness (testing/synctest bubble): the virtual clock moves only while EVERY        *)
 (* goroutine of the bubble is blocked - the clients (so a client records the return of its call at the instant the  *)
 (* call returned), the serving goroutine and the grace timers (a timer fires at its deadline, never early; nothing  *)
@@ -146,16 +160,16 @@ ClientRuns == \E g \in G : ENABLED (RSelect1(g) \/ RSelect2(g) \/ WSelect1(g) \/
 LibRuns == \/ ENABLED (SrvRecv \/ SrvReaderGone \/ SrvAdmitReader \/ SrvWriterSlot \/ SrvWriterGrant \/ SrvExit)
            \/ \E r \in Readers : ENABLED GraceFire(r)
 Tick == /\ now < MaxT /\ ~ClientRuns /\ ~LibRuns /\ now' = now + 1 /\ c' = CNext(c, [ev |-> "adv", now |-> now + 1])
-        /\ UNCHANGED <<closed, chq, srv, sg, lslot, reg, grace, cause, admittedAt, resp, pcancelled, told, sdheld, viaSd, pc, left>>
+        /\ UNCHANGED <<closed, chq, srv, sg, lslot, reg, ents, rid, nextId, grace, cause, admittedAt, resp, pcancelled, told, sdheld, viaSd, pc, left>>
 
 Progress == \/ SrvRecv \/ SrvReaderGone \/ SrvAdmitReader \/ SrvWriterSlot \/ SrvWriterGrant \/ SrvExit
             \/ \E r \in Readers : GraceFire(r)
             \/ \E g \in G : Call(g) \/ RSelect1(g) \/ RSelect2(g) \/ WSelect1(g) \/ WSelect2(g) \/ WShutdownLock(g)
-                            \/ Ret(g) \/ RetErr(g) \/ Exit(g) \/ RRelease(g) \/ WRelease(g)
+                            \/ Ret(g) \/ RetErr(g) \/ Exit(g) \/ RRelease(g) \/ RReleaseAgain(g) \/ WRelease(g)
 (* end of run: nothing can move, no timer is pending: whoever still waits will wait forever *)
 Stuck == /\ ~ENABLED Progress /\ \A r \in Readers : grace[r] = -1
          /\ \E g \in G : pc[g] \in {"call", "wait", "sd", "unl"} /\ c' = CNext(c, Ev("stuck", g))
-         /\ UNCHANGED <<now, closed, chq, srv, sg, lslot, reg, grace, cause, admittedAt, resp, pcancelled, told, sdheld, viaSd, pc, left>>
+         /\ UNCHANGED <<now, closed, chq, srv, sg, lslot, reg, ents, rid, nextId, grace, cause, admittedAt, resp, pcancelled, told, sdheld, viaSd, pc, left>>
 
 Next == Progress \/ Stuck \/ Shutdown \/ Tick \/ \E r \in Readers : ParentCancel(r)
 Spec == Init /\ [][Next]_vars /\ WF_vars(Progress) /\ WF_vars(Tick)
